@@ -20,6 +20,32 @@ from tyuniv import *  # noqa
 
 RESERVED = ['writer', 'reader', 'variant_idx', 'return_value', 'variant_tag', 'tag', 'id0', 'id1', 'definitions', 'fields']
 PLAIN = ['a', 'b', 'c', 'd', 'e', 'f', 'g', 'h', 'x', 'y', 'count', 'data']
+# raw identifiers (keywords written r#kw): legal names of fields and variants; the macros must treat them like any
+# other identifier (95a0033: the BorshSchema derive built the inner struct name "Er#type" and panicked)
+RAW_IDENTS = ['r#type', 'r#match', 'r#fn', 'r#loop', 'r#struct', 'r#impl']
+
+
+def unraw(n):
+    """the identifier without the r# prefix (syn: Ident::unraw)"""
+    return n[2:] if n.startswith('r#') else n
+
+
+def rawify(it, idx):
+    """Deterministically (no random draws: the rest of the seeded corpus stays what it was) rename fields / a variant
+    of some items to raw identifiers.  idx % 4 == 1: the first and the last field of the first named field list;
+    enums with idx % 4 == 3 or idx % 8 == 1 (then next to raw field names): one variant."""
+    k = idx // 4
+    if idx % 4 == 1:
+        lists = [it['fields']] if it['kind'] == 'struct' else [v['fields'] for v in it['variants']]
+        for fs in lists:
+            if fs and not fs[0]['name'].isdigit():
+                fs[0]['name'] = RAW_IDENTS[k % len(RAW_IDENTS)]
+                if len(fs) > 1:
+                    fs[-1]['name'] = RAW_IDENTS[(k + 1) % len(RAW_IDENTS)]
+                break
+    if it['kind'] == 'enum' and (idx % 4 == 3 or idx % 8 == 1):
+        vs = it['variants']
+        vs[k % len(vs)]['name'] = RAW_IDENTS[(k + 2) % len(RAW_IDENTS)]
 
 OPS = {'mul': ('*', 7), 'div': ('/', 7), 'rem': ('%', 7), 'add': ('+', 6), 'sub': ('-', 6),
        'shl': ('<<', 5), 'shr': ('>>', 5), 'and': ('&', 4), 'xor': ('^', 3), 'or': ('|', 2)}
@@ -373,6 +399,7 @@ def gen_item(rng, idx, earlier, force=None):
         make_generic(rng, it)
     if not it['generic']:
         it['params'] = []
+    rawify(it, idx)
     return it
 
 
@@ -1041,6 +1068,22 @@ def controls(bases):
     big2 = _copy(big)
     big2['use_disc'] = True
     out.append(('c256d', '256 variants, use_discriminant = true (implicit 0..255)', big2))
+    # raw identifiers as field and variant names (95a0033: derive(BorshSchema) panicked on `enum E { r#type }`)
+    S = ('text', 'string')
+    out.append(('craw_s', 'raw identifiers as field names', {
+        'name': 'RawS', 'kind': 'struct', 'shape': 'named', 'init': False, 'use_disc': None, 'generic': False, 'params': [],
+        'fields': [_f('r#type', P('u8')), _f('r#match', S, skip=True), _f('r#fn', P('u16'), with_=P('u32')), _f('r#struct', seq('vec', P('u32')))]}))
+    out.append(('craw_e', 'raw identifiers as variant and field names', {
+        'name': 'RawE', 'kind': 'enum', 'init': False, 'use_disc': None, 'generic': False, 'params': [],
+        'variants': [{'name': 'r#type', 'discr': None, 'shape': 'unit', 'fields': [], 'attrs': []},
+                     {'name': 'r#match', 'discr': None, 'shape': 'tuple', 'fields': [_f('0', P('u8')), _f('1', S, skip=True)], 'attrs': []},
+                     {'name': 'r#loop', 'discr': None, 'shape': 'named', 'fields': [_f('r#fn', P('u16')), _f('r#impl', P('i8'), skip=True)], 'attrs': []},
+                     {'name': 'D', 'discr': None, 'shape': 'unit', 'fields': [], 'attrs': []}]}))
+    out.append(('craw_d', 'raw identifiers as variant names, use_discriminant = true, init', {
+        'name': 'RawD', 'kind': 'enum', 'init': True, 'use_disc': True, 'generic': False, 'params': [],
+        'variants': [{'name': 'r#type', 'discr': ('lit', 3), 'shape': 'unit', 'fields': [], 'attrs': []},
+                     {'name': 'r#struct', 'discr': None, 'shape': 'named', 'fields': [_f('r#type', P('u16'))], 'attrs': []},
+                     {'name': 'r#fn', 'discr': ('bin', 'shl', ('lit', 1), ('lit', 3)), 'shape': 'unit', 'fields': [], 'attrs': []}]}))
     for i, b in enumerate(bases):
         it = _copy(b)
         it['extra_metas'] = ['(crate (str borsh 1))']
@@ -1069,12 +1112,15 @@ pub fn any_de<T: Default, R: borsh::io::Read>(_r: &mut R) -> borsh::io::Result<T
 # (coq/Generics.v).  A generic item description:
 #   {'name', 'kind': 'struct'|'enum', 'params': [(P, default gty | None)], 'tr': {P,..} (inline `P: crate::Tr`),
 #    'where': [pred], 'fields': [gfield] | 'variants': [{'name', 'fields'}]}
+#   optional: 'lifetimes': ["'a", ..] (written before the type parameters), 'consts': [(N, type)] (written after them),
+#             'clone': {P,..} (inline `P: Clone`), 'kinds': the derive kinds that make sense for the item (default: all three;
+#             ('ser',) for items with a serialized reference: references have no BorshDeserialize / BorshSchema impl)
 #   gfield = {'name', 'skip', 'bser': None|[pred], 'bde': None|[pred], 'sparams': None|[(P, gty)], 'ty': gty}
 #   pred   = ('user', gty, [trait path, ...])
 #   gty    = ('param', P) | ('path', q|None, qpos, colon, [(ident, args)]) | ('wrap', w, gty) | ('tuple', [gty])
 #          | ('fn', [gty], out|None) | ('macro', name, [ident]) | ('other', text)
 #   args   = None | ('angle', [('ty', gty) | ('assoc', id, gty) | ('other', text)])
-#   w      = ('array', n) | 'slice' | ('ref', lifetime, mut) | 'paren'
+#   w      = ('array', n) | 'slice' | ('ref', lifetime, mut) | ('ptr', mut) | 'paren'
 def g_name(n):
     return ('path', None, 0, False, [(s, None) for s in n.split('::')])
 
@@ -1130,6 +1176,8 @@ def gty_rust(t):
             return '[%s; %s]' % (gty_rust(t[2]), w[1])
         if w[0] == 'ref':
             return '&%s%s%s' % (w[1] + ' ' if w[1] else '', 'mut ' if w[2] else '', gty_rust(t[2]))
+        if w[0] == 'ptr':
+            return '*%s %s' % ('mut' if w[1] else 'const', gty_rust(t[2]))
     if k == 'tuple':
         return '(' + ''.join(gty_rust(x) + ', ' for x in t[1]) + ')'
     if k == 'fn':
@@ -1158,7 +1206,8 @@ def gty_sexp(t):
                                        ' '.join('(seg %s %s)' % (i, args_s(a)) for i, a in segs))
     if k == 'wrap':
         w = t[1]
-        ws = w if isinstance(w, str) else ('(array %s)' % w[1] if w[0] == 'array' else '(ref %s %d)' % (w[1] or '-', 1 if w[2] else 0))
+        ws = w if isinstance(w, str) else ('(array %s)' % w[1] if w[0] == 'array' else
+                                           '(ptr %d)' % (1 if w[1] else 0) if w[0] == 'ptr' else '(ref %s %d)' % (w[1] or '-', 1 if w[2] else 0))
         return '(wrap %s %s)' % (ws, gty_sexp(t[2]))
     if k == 'tuple':
         return '(tuple %s)' % ' '.join(gty_sexp(x) for x in t[1])
@@ -1242,7 +1291,9 @@ def gitem_fields(it):
 
 
 def gitem_sexp(it):
-    ps = ' '.join('(type %s %s)' % (p, 'none' if d is None else gty_sexp(d)) for p, d in it['params'])
+    ps = ' '.join(['(lifetime %s)' % l for l in it.get('lifetimes', [])] +
+                  ['(type %s %s)' % (p, 'none' if d is None else gty_sexp(d)) for p, d in it['params']] +
+                  ['(const %s)' % n for n, _ in it.get('consts', [])])
     w = ' '.join(gpred_sexp(p) for p in it['where'])
     if it['kind'] == 'struct':
         body = '(struct %s)' % ' '.join(gfield_sexp(f) for f in it['fields'])
@@ -1251,10 +1302,29 @@ def gitem_sexp(it):
     return '(gitem %s (%s) (%s) %s)' % (it['name'], ps, w, body)
 
 
+CONST_INST = '2'        # the value const generic parameters are instantiated at by the probes
+
+
+def gitem_inst(it, tyargs):
+    """the generic argument list of an instantiation: lifetimes at 'static, the type parameters at `tyargs`, consts at 2"""
+    args = ["'static"] * len(it.get('lifetimes', [])) + list(tyargs) + [CONST_INST] * len(it.get('consts', []))
+    return '<%s>' % ', '.join(args) if args else ''
+
+
+def gitem_kinds(it):
+    return tuple(it.get('kinds', ('ser', 'de', 'schema')))
+
+
 def gitem_rust(it, derives=('BorshSerialize', 'BorshDeserialize', 'BorshSchema')):
     """the definition with the given derives; tuple-shaped when the field names are numbers"""
-    gen = '<%s>' % ', '.join('%s%s%s' % (p, ': crate::Tr' if p in it['tr'] else '', '' if d is None else ' = ' + gty_rust(d))
-                             for p, d in it['params'])
+    def inline(p):
+        bs = (['crate::Tr'] if p in it['tr'] else []) + (['Clone'] if p in it.get('clone', ()) else [])
+        return ': ' + ' + '.join(bs) if bs else ''
+    gen = '<%s>' % ', '.join(list(it.get('lifetimes', [])) +
+                             ['%s%s%s' % (p, inline(p), '' if d is None else ' = ' + gty_rust(d)) for p, d in it['params']] +
+                             ['const %s: %s' % c for c in it.get('consts', [])])
+    if gen == '<>':
+        gen = ''
     where = (' where ' + ', '.join(gpred_rust(p) for p in it['where'])) if it['where'] else ''
 
     def body(fields, vis):
@@ -1368,7 +1438,12 @@ def gen_bounds_item(rng, idx):
             k = rng.choice([0, 1, 2, 3])
             it['variants'].append({'name': 'V%d' % v,
                                    'fields': [gen_gfield(rng, ('f%d' % i) if named else str(i), params, it) for i in range(k)]})
-    # every parameter must be used by the definition itself (E0392): add a PhantomData field for the unused ones
+    _use_all_params(rng, it, params)
+    return it
+
+
+def _use_all_params(rng, it, params):
+    """every parameter must be used by the definition itself (E0392): add a PhantomData field for the unused ones"""
     used = set().union(*[gty_params(f['ty']) for f in gitem_fields(it)]) if gitem_fields(it) else set()
     for p in params:
         if p not in used:
@@ -1382,7 +1457,6 @@ def gen_bounds_item(rng, idx):
                 fs.append(_gf(('ph%d' % len(fs)) if named else str(len(fs)), g_param(p), skip=True))
             else:
                 fs.append(_gf(('ph%d' % len(fs)) if named else str(len(fs)), g_phantom(g_param(p))))
-    return it
 
 
 def gitem_of_item(it):
@@ -1402,6 +1476,198 @@ def gitem_of_item(it):
     else:
         g['variants'] = [{'name': v['name'], 'fields': [conv(f) for f in v['fields']]} for v in it['variants']]
     return g
+
+
+# ---- second family of shapes: references / slices / raw pointers over a parameter (visitor arms Type::Reference, Type::Slice,
+# Type::Ptr), lifetime and const generic parameters (GPLifetime, GPConst: kept by every per-variant inner struct of the
+# BorshSchema derive), raw identifiers as field / variant names.  Generated by its own functions and appended to the corpus
+# so that the items of the first family stay exactly what they were.
+LT = "'a"
+
+
+def g_cow(t, lt=LT):
+    return ('path', None, 0, False, [('std', None), ('borrow', None), ('Cow', ('angle', [('other', lt), ('ty', t)]))])
+
+
+def g_ref(t, lt=LT):
+    return ('wrap', ('ref', lt, False), t)
+
+
+def g_slice(t):
+    return ('wrap', 'slice', t)
+
+
+def g_ptr(t, mut=False):
+    return ('wrap', ('ptr', mut), t)
+
+
+def _need_lt(it):
+    if LT not in it.setdefault('lifetimes', []):
+        it['lifetimes'].append(LT)
+
+
+def _need_const(it):
+    if not it.setdefault('consts', []):
+        it['consts'].append(('N', 'usize'))
+
+
+GFIELD2_SHAPES = ['box_slice', 'box_slice', 'vec_box_slice', 'cow_slice', 'cow_str',
+                  'skip_ref_slice', 'skip_ref_slice', 'skip_opt_ref', 'skip_ptr', 'skip_ptr', 'skip_ptr_slice',
+                  'const_arr', 'const_arr', 'const_arr_u8', 'const_nested']
+GFIELD2_REFS = ['ref', 'ref_slice', 'ref_slice', 'ref_tuple']      # serialized references: items derived with BorshSerialize only
+
+
+def gen_gfield2(rng, name, params, it, refs=False):
+    """one field of the second family; records what the item then needs: a lifetime parameter, a const parameter,
+    `P: Clone` ([P]: ToOwned, for Box<[P]> / Cow<[P]> to be deserializable), the restriction to BorshSerialize"""
+    P = rng.choice(params)
+    p = g_param(P)
+    c = rng.choice(GFIELD2_REFS if refs and rng.random() < 0.5 else GFIELD2_SHAPES)
+    if c == 'box_slice':                         # Type::Slice inside a path argument
+        it['clone'].add(P)
+        return _gf(name, g_app('Box', g_slice(p)))
+    if c == 'vec_box_slice':
+        it['clone'].add(P)
+        return _gf(name, g_app('Vec', g_app('Box', g_slice(p))))
+    if c == 'cow_slice':                         # lifetime argument + Type::Slice
+        it['clone'].add(P)
+        _need_lt(it)
+        return _gf(name, g_cow(g_slice(p)))
+    if c == 'cow_str':
+        _need_lt(it)
+        return _gf(name, g_cow(g_name('str')))
+    if c in ('ref', 'ref_slice', 'ref_tuple'):   # a serialized reference: BorshSerialize only
+        _need_lt(it)
+        it['kinds'] = ('ser',)
+        if c == 'ref':
+            return _gf(name, g_ref(p))
+        if c == 'ref_slice':
+            return _gf(name, g_ref(g_slice(p)))
+        return _gf(name, ('tuple', [g_ref(p), g_name('u8')]))
+    if c == 'skip_ref_slice':                    # `&[T]: Default` exists: legal under all three derives
+        _need_lt(it)
+        return _gf(name, g_ref(g_slice(p)), skip=True)
+    if c == 'skip_opt_ref':
+        _need_lt(it)
+        return _gf(name, g_app('Option', g_ref(p)), skip=True)
+    if c == 'skip_ptr':                          # Type::Ptr: only a skipped field can hold a raw pointer
+        return _gf(name, g_app('Option', g_ptr(p, rng.random() < 0.5)), skip=True)
+    if c == 'skip_ptr_slice':
+        return _gf(name, g_app('Option', g_ptr(g_slice(p))), skip=True)
+    if c == 'const_arr':
+        _need_const(it)
+        return _gf(name, ('wrap', ('array', 'N'), p))
+    if c == 'const_arr_u8':
+        _need_const(it)
+        return _gf(name, ('wrap', ('array', 'N'), g_name('u8')))
+    if c == 'const_nested':
+        _need_const(it)
+        return _gf(name, g_app('Vec', ('wrap', ('array', 'N'), p)))
+    raise ValueError(c)
+
+
+def _names(rng, k, named, prefix):
+    """k field / variant names: `f0..` (`V0..`) with some raw identifiers mixed in; numbers for tuple shapes"""
+    if not named:
+        return [str(i) for i in range(k)]
+    raw = list(RAW_IDENTS)
+    rng.shuffle(raw)
+    return [raw[i] if rng.random() < 0.3 else '%s%d' % (prefix, i) for i in range(k)]
+
+
+def variant_mentions(v, lt):
+    return any(lt in gty_rust(f['ty']) for f in v['fields'])
+
+
+def gen_bounds_item2(rng, idx):
+    n = rng.choice([1, 1, 2, 2, 3])
+    params = ['T%d' % i for i in range(n)]
+    it = {'name': 'X%d' % idx, 'kind': rng.choice(['struct', 'enum']), 'tr': set(), 'clone': set(), 'where': [],
+          'params': [(p, None) for p in params]}
+    refs = rng.random() < 0.25            # an item with serialized references (BorshSerialize only)
+
+    def fields(k, named):
+        return [gen_gfield2(rng, nm, params, it, refs) if rng.random() < 0.6 else gen_gfield(rng, nm, params, it)
+                for nm in _names(rng, k, named, 'f')]
+    if it['kind'] == 'struct':
+        it['fields'] = fields(rng.choice([1, 2, 3, 4]), rng.random() < 0.6)
+    else:
+        vnames = _names(rng, rng.choice([1, 2, 3]), True, 'V')
+        it['variants'] = [{'name': vn, 'fields': fields(rng.choice([0, 1, 2, 3]), rng.random() < 0.5)} for vn in vnames]
+    _use_all_params(rng, it, params)
+    if it['kind'] == 'enum' and it.get('lifetimes') and 'schema' in gitem_kinds(it):
+        # CANDIDATE FINDING (NOTES-gen.md): the per-variant inner structs of the BorshSchema derive keep EVERY lifetime
+        # parameter of the enum (filter_used_params: `Lifetime | Const => true`), so a variant that does not mention the
+        # lifetime becomes `struct EB<'a>;` -> E0392 "lifetime parameter `'a` is never used" (BorshSerialize and
+        # BorshDeserialize accept the enum).  That shape is kept out of the BorshSchema corpus: either every variant gets
+        # a field that mentions the lifetime, or the item is derived without BorshSchema.
+        lacking = [v for v in it['variants'] if not variant_mentions(v, LT)]
+        if lacking and rng.random() < 0.5:
+            it['kinds'] = ('ser', 'de')
+            it['candidate'] = 'schema-inner-struct-unused-lifetime'
+        else:
+            for v in lacking:
+                named = bool(v['fields']) and not v['fields'][0]['name'].isdigit()
+                v['fields'].append(_gf('lt%d' % len(v['fields']) if named else str(len(v['fields'])), g_cow(g_name('str'))))
+    return it
+
+
+def fixed_bounds_items2():
+    """the reviewer's examples and one item per visitor arm / parameter kind, always part of the corpus"""
+    T, U = g_param('T0'), g_param('T1')
+
+    def item(name, kind, params, **kw):
+        it = {'name': name, 'kind': kind, 'tr': set(), 'clone': set(), 'where': [], 'params': [(p, None) for p in params]}
+        it.update(kw)
+        return it
+    u8 = g_name('u8')
+    arrN = lambda t: ('wrap', ('array', 'N'), t)
+    return [
+        # --- Type::Slice / Type::Reference / Type::Ptr
+        item('BoxSliceS', 'struct', ['T0'], clone={'T0'}, fields=[_gf('a', g_app('Box', g_slice(T)))]),
+        item('BoxSliceE', 'enum', ['T0', 'T1'], clone={'T0'},
+             variants=[{'name': 'A', 'fields': [_gf('0', g_app('Box', g_slice(T)))]}, {'name': 'B', 'fields': [_gf('x', U)]}]),
+        item('RefSliceV', 'struct', ['T0'], lifetimes=[LT], kinds=('ser',), fields=[_gf('items', g_ref(g_slice(T)))]),
+        item('RefS', 'struct', ['T0', 'T1'], lifetimes=[LT], kinds=('ser',),
+             fields=[_gf('x', g_ref(T)), _gf('y', g_app('Vec', g_ref(U))), _gf('z', g_ref(g_name('str')))]),
+        item('RefE', 'enum', ['T0'], lifetimes=[LT], kinds=('ser',),
+             variants=[{'name': 'A', 'fields': [_gf('0', g_ref(g_slice(T)))]}, {'name': 'B', 'fields': []}]),
+        item('SkipRefSliceS', 'struct', ['T0', 'T1'], lifetimes=[LT],
+             fields=[_gf('items', g_ref(g_slice(T)), skip=True), _gf('b', U)]),
+        item('SkipOptRefT', 'struct', ['T0'], lifetimes=[LT],
+             fields=[_gf('0', g_app('Option', g_ref(T)), skip=True), _gf('1', u8)]),
+        item('SkipPtrS', 'struct', ['T0', 'T1'],
+             fields=[_gf('p', g_app('Option', g_ptr(T)), skip=True), _gf('q', g_app('Option', g_ptr(g_slice(U), True)), skip=True), _gf('r', u8)]),
+        item('SkipPtrE', 'enum', ['T0', 'T1'],          # the inner struct of A must declare T0 (found through Type::Ptr)
+             variants=[{'name': 'A', 'fields': [_gf('0', g_app('Option', g_ptr(T, True)), skip=True), _gf('1', U)]}, {'name': 'B', 'fields': []}]),
+        item('SkipRefE', 'enum', ['T0'], lifetimes=[LT],  # the inner struct of A must declare T0 (Type::Reference, Type::Slice)
+             variants=[{'name': 'A', 'fields': [_gf('items', g_ref(g_slice(T)), skip=True), _gf('n', u8)]},
+                       {'name': 'B', 'fields': [_gf('0', g_cow(g_name('str')))]}]),
+        # --- lifetime / const parameters
+        item('ConstE', 'enum', [], consts=[('N', 'usize')],
+             variants=[{'name': 'A', 'fields': [_gf('0', arrN(u8))]}, {'name': 'B', 'fields': []}]),
+        item('ConstS', 'struct', ['T0'], consts=[('N', 'usize')], fields=[_gf('a', arrN(T)), _gf('b', g_app('Vec', arrN(u8)))]),
+        item('ConstTE', 'enum', ['T0', 'T1'], consts=[('N', 'usize')],
+             variants=[{'name': 'A', 'fields': [_gf('xs', arrN(T))]}, {'name': 'B', 'fields': [_gf('0', U), _gf('1', arrN(g_name('u16')))]},
+                       {'name': 'C', 'fields': []}]),
+        item('LifeE', 'enum', [], lifetimes=[LT],
+             variants=[{'name': 'A', 'fields': [_gf('0', g_cow(g_name('str')))]}, {'name': 'B', 'fields': [_gf('0', g_cow(g_slice(u8)))]}]),
+        item('LifeTE', 'enum', ['T0'], lifetimes=[LT], clone={'T0'},
+             variants=[{'name': 'A', 'fields': [_gf('xs', g_cow(g_slice(T)))]}, {'name': 'B', 'fields': [_gf('0', g_cow(g_name('str'))), _gf('1', u8)]}]),
+        item('LifeS', 'struct', ['T0'], lifetimes=[LT], clone={'T0'}, fields=[_gf('name', g_cow(g_name('str'))), _gf('xs', g_cow(g_slice(T)))]),
+        item('MixE', 'enum', ['T0'], lifetimes=[LT], consts=[('N', 'usize')], clone={'T0'},
+             variants=[{'name': 'A', 'fields': [_gf('xs', g_cow(g_slice(T)))]},
+                       {'name': 'B', 'fields': [_gf('0', arrN(T)), _gf('1', g_cow(g_name('str')))]}]),
+        # the enum of the candidate finding (a variant that does not mention the lifetime): without BorshSchema
+        item('LifeUnusedE', 'enum', [], lifetimes=[LT], kinds=('ser', 'de'), candidate='schema-inner-struct-unused-lifetime',
+             variants=[{'name': 'A', 'fields': [_gf('0', g_cow(g_name('str')))]}, {'name': 'B', 'fields': []}]),
+        # --- raw identifiers
+        item('RawE', 'enum', ['T0'],
+             variants=[{'name': 'r#type', 'fields': []}, {'name': 'r#match', 'fields': [_gf('r#fn', T), _gf('r#loop', u8, skip=True)]},
+                       {'name': 'C', 'fields': [_gf('0', u8)]}]),
+        item('RawS', 'struct', ['T0'], fields=[_gf('r#type', g_app('Vec', T)), _gf('r#struct', u8)]),
+        item('RawPlainE', 'enum', [], variants=[{'name': 'r#type', 'fields': []}, {'name': 'r#impl', 'fields': [_gf('r#type', u8)]}]),
+    ]
 
 
 FIXED_BOUNDS_ITEMS = None
@@ -1449,4 +1715,9 @@ def gen_bounds_items(seed, count):
     while len(items) < count:
         items.append(gen_bounds_item(rng, i))
         i += 1
+    # the second family (references / slices / pointers, lifetime and const parameters, raw identifiers): appended, own generator
+    items += fixed_bounds_items2()
+    rng2 = random.Random(seed * 6007 + 41)
+    for j in range(max(24, count // 4)):
+        items.append(gen_bounds_item2(rng2, j))
     return items
